@@ -104,6 +104,8 @@ async def update_yaml_config(hass: HomeAssistant, config_entry: ConfigEntry) -> 
         return False
 
     config = PYSCRIPT_SCHEMA(conf.get(DOMAIN, {}))
+    global_params = [CONF_HASS_IS_GLOBAL, CONF_ALLOW_ALL_IMPORTS, CONF_LEGACY_DECORATORS]
+    config_before = {param: config_entry.data.get(param, False) for param in global_params}
 
     #
     # If data in config doesn't match config entry, trigger a config import
@@ -122,13 +124,12 @@ async def update_yaml_config(hass: HomeAssistant, config_entry: ConfigEntry) -> 
     }
     if DOMAIN not in hass.data:
         hass.data.setdefault(DOMAIN, {})
-    if CONFIG_ENTRY_OLD in hass.data[DOMAIN]:
-        old_entry = hass.data[DOMAIN][CONFIG_ENTRY_OLD]
-        hass.data[DOMAIN][CONFIG_ENTRY_OLD] = config_save
-        for param in [CONF_HASS_IS_GLOBAL, CONF_ALLOW_ALL_IMPORTS, CONF_LEGACY_DECORATORS]:
-            if old_entry.get(param, False) != config_entry.data.get(param, False):
-                return True
+    # on the first reload nothing has been saved yet: compare with the entry as it was before the import
+    old_entry = hass.data[DOMAIN].get(CONFIG_ENTRY_OLD, config_before)
     hass.data[DOMAIN][CONFIG_ENTRY_OLD] = config_save
+    for param in global_params:
+        if old_entry.get(param, False) != config_entry.data.get(param, False):
+            return True
     return False
 
 
